@@ -2,8 +2,34 @@ import PlaybackProofs.RecorderTransparent
 /-! Invariants of the interpreter: a generic preservation principle and its instances. -/
 namespace PlaybackModel.Recorder
 
-/-- Any predicate closed under the recorder's elementary state updates is preserved by `exec`. -/
-theorem exec_preserves (P : St → Prop)
+/-- every `enable_recording()` / `disable_recording()` the running code makes satisfies `E` -/
+def Prog.Switches (E : Bool → Prop) : Prog → Prop
+  | .done _ => True
+  | .callIn _ _ body k => body.Switches E ∧ ∀ o, (k o).Switches E
+  | .callOut _ _ body k => body.Switches E ∧ ∀ o, (k o).Switches E
+  | .discard k => k.Switches E
+  | .force k => k.Switches E
+  | .recordData _ _ k => k.Switches E
+  | .setEnabled b k => E b ∧ k.Switches E
+  | .playData _ k => ∀ o, (k o).Switches E
+
+/-- the running code never touches the recorder's enable switch -/
+def Prog.NoSwitch (p : Prog) : Prop := p.Switches (fun _ => False)
+
+theorem Prog.switches_true (p : Prog) : p.Switches (fun _ => True) := by
+  induction p with
+  | done e => trivial
+  | discard k ih => exact ih
+  | force k ih => exact ih
+  | recordData key v k ih => exact ih
+  | setEnabled b k ih => exact ⟨trivial, ih⟩
+  | playData key k ih => exact fun o => ih o
+  | callIn cfg args body k ihb ihk => exact ⟨ihb, fun o => ihk o⟩
+  | callOut cfg args body k ihb ihk => exact ⟨ihb, fun o => ihk o⟩
+
+/-- Any predicate closed under the recorder's elementary state updates - and under the switch flips the program makes - is
+preserved by `exec`. -/
+theorem exec_preserves_sw (E : Bool → Prop) (P : St → Prop)
     (hJ : ∀ s e, P s → P (addJournal s e))
     (hI : ∀ s b, P s → P (setInt s b))
     (hD : ∀ s, P s → P (doDiscard s))
@@ -11,61 +37,65 @@ theorem exec_preserves (P : St → Prop)
     (hR : ∀ s key v, P s → P (doRecordData s key v))
     (hRO : ∀ s (cfg : OutCfg) n args, P s → shouldIntercept s = true → P (recordOutput (bump s cfg.alias) cfg n args))
     (hAI : ∀ cfg args k0 s o, P s → P (afterInput cfg args k0 s o))
-    (hAO : ∀ alias n s o, P s → P (afterOutput alias n s o)) :
-    ∀ (p : Prog) (s : St), P s → P (exec s p).1 := by
+    (hAO : ∀ alias n s o, P s → P (afterOutput alias n s o))
+    (hE : ∀ s b, E b → P s → P (doSetEnabled s b)) :
+    ∀ (p : Prog), p.Switches E → ∀ (s : St), P s → P (exec s p).1 := by
   intro p
   induction p with
-  | done e => intro s h; exact h
-  | discard k ih => intro s h; rw [exec]; exact ih _ (hD s h)
-  | force k ih => intro s h; rw [exec]; exact ih _ (hF s h)
-  | recordData key v k ih => intro s h; rw [exec]; exact ih _ (hR s key v h)
-  | playData key k ih => intro s h; rw [exec]; exact ih _ s h
+  | done e => intro _ s h; exact h
+  | discard k ih => intro hq s h; rw [exec]; exact ih hq _ (hD s h)
+  | force k ih => intro hq s h; rw [exec]; exact ih hq _ (hF s h)
+  | recordData key v k ih => intro hq s h; rw [exec]; exact ih hq _ (hR s key v h)
+  | setEnabled b k ih => intro hq s h; rw [exec]; exact ih hq.2 _ (hE s b hq.1 h)
+  | playData key k ih => intro hq s h; rw [exec]; exact ih _ (hq _) s h
   | callIn cfg args body k ihb ihk =>
-    intro s h
+    intro hq s h
+    obtain ⟨hqb, hqk⟩ := hq
     have step : ∀ (sb : St) (post : Out → St → St) (postI : St → St), P sb →
         (∀ o t, P t → P (post o t)) → (∀ t, P t → P (postI t)) →
         P (match exec sb body with
             | (s1, .out o) => exec (post o s1) (k o)
             | (s1, .interrupt i) => (postI s1, .interrupt i)).1 := by
       intro sb post postI hsb hpost hpostI
-      have hb := ihb sb hsb
+      have hb := ihb hqb sb hsb
       generalize exec sb body = r at hb
       obtain ⟨s1, e⟩ := r
       cases e with
-      | out o => exact ihk o _ (hpost o s1 hb)
+      | out o => exact ihk o (hqk o) _ (hpost o s1 hb)
       | interrupt i => exact hpostI s1 hb
     rw [exec]
     split
     · exact step _ (fun _ t => t) (fun t => t) (hJ s _ h) (fun _ _ ht => ht) (fun _ ht => ht)
     · split
       · split
-        · exact ihk _ s h
+        · exact ihk _ (hqk _) s h
         · exact step _ (fun _ t => setInt t false) (fun t => setInt t false) (hI _ _ (hJ _ _ (hD s h)))
             (fun _ t ht => hI t false ht) (fun t ht => hI t false ht)
       · split
         · split
-          · exact ihk _ s h
+          · exact ihk _ (hqk _) s h
           · split
             · exact step _ (fun _ t => t) (fun t => t) (hJ s _ h) (fun _ _ ht => ht) (fun _ ht => ht)
             · split
-              · exact ihk _ s h
-              · exact ihk _ s h
+              · exact ihk _ (hqk _) s h
+              · exact ihk _ (hqk _) s h
         · rename_i k0 fallbacks _ _ _
           exact step _ (fun o t => afterInput cfg args k0 (setInt t false) o) (fun t => setInt t false)
             (hI _ _ (hJ s _ h)) (fun o t ht => hAI cfg args k0 _ o (hI t false ht)) (fun t ht => hI t false ht)
   | callOut cfg args body k ihb ihk =>
-    intro s h
+    intro hq s h
+    obtain ⟨hqb, hqk⟩ := hq
     have step : ∀ (sb : St) (post : Out → St → St) (postI : St → St), P sb →
         (∀ o t, P t → P (post o t)) → (∀ t, P t → P (postI t)) →
         P (match exec sb body with
             | (s1, .out o) => exec (post o s1) (k o)
             | (s1, .interrupt i) => (postI s1, .interrupt i)).1 := by
       intro sb post postI hsb hpost hpostI
-      have hb := ihb sb hsb
+      have hb := ihb hqb sb hsb
       generalize exec sb body = r at hb
       obtain ⟨s1, e⟩ := r
       cases e with
-      | out o => exact ihk o _ (hpost o s1 hb)
+      | out o => exact ihk o (hqk o) _ (hpost o s1 hb)
       | interrupt i => exact hpostI s1 hb
     rw [exec]
     split
@@ -77,27 +107,66 @@ theorem exec_preserves (P : St → Prop)
       · exact step _ (fun _ t => t) (fun t => t) (hJ _ _ h1) (fun _ _ ht => ht) (fun _ ht => ht)
       · split
         · split
-          · exact ihk _ _ h1
+          · exact ihk _ (hqk _) _ h1
           · split
-            · exact ihk _ _ h1
-            · exact ihk _ _ h1
+            · exact ihk _ (hqk _) _ h1
+            · exact ihk _ (hqk _) _ h1
         · exact step _ (fun o t => afterOutput cfg.alias (cnt s.counter cfg.alias + 1) (setInt t false) o)
             (fun t => setInt t false) (hI _ _ (hJ _ _ h1))
             (fun o t ht => hAO _ _ _ o (hI t false ht)) (fun t ht => hI t false ht)
 
-/-- components `exec` never touches -/
+theorem exec_preserves (P : St → Prop)
+    (hJ : ∀ s e, P s → P (addJournal s e))
+    (hI : ∀ s b, P s → P (setInt s b))
+    (hD : ∀ s, P s → P (doDiscard s))
+    (hF : ∀ s, P s → P (doForce s))
+    (hR : ∀ s key v, P s → P (doRecordData s key v))
+    (hRO : ∀ s (cfg : OutCfg) n args, P s → shouldIntercept s = true → P (recordOutput (bump s cfg.alias) cfg n args))
+    (hAI : ∀ cfg args k0 s o, P s → P (afterInput cfg args k0 s o))
+    (hAO : ∀ alias n s o, P s → P (afterOutput alias n s o))
+    (hE : ∀ s b, P s → P (doSetEnabled s b)) :
+    ∀ (p : Prog) (s : St), P s → P (exec s p).1 :=
+  fun p s h => exec_preserves_sw (fun _ => True) P hJ hI hD hF hR hRO hAI hAO (fun s b _ h => hE s b h) p p.switches_true s h
+
+/-- … without the last closure condition for programs that never touch the switch -/
+theorem exec_preserves_ns (P : St → Prop)
+    (hJ : ∀ s e, P s → P (addJournal s e))
+    (hI : ∀ s b, P s → P (setInt s b))
+    (hD : ∀ s, P s → P (doDiscard s))
+    (hF : ∀ s, P s → P (doForce s))
+    (hR : ∀ s key v, P s → P (doRecordData s key v))
+    (hRO : ∀ s (cfg : OutCfg) n args, P s → shouldIntercept s = true → P (recordOutput (bump s cfg.alias) cfg n args))
+    (hAI : ∀ cfg args k0 s o, P s → P (afterInput cfg args k0 s o))
+    (hAO : ∀ alias n s o, P s → P (afterOutput alias n s o)) :
+    ∀ (p : Prog), p.NoSwitch → ∀ (s : St), P s → P (exec s p).1 :=
+  fun p hp s h => exec_preserves_sw (fun _ => False) P hJ hI hD hF hR hRO hAI hAO (fun _ _ hf _ => hf.elim) p hp s h
+
+/-- components `exec` never touches (the first conjunct was the `enabled` switch until the running code itself could flip
+it: `Prog.setEnabled`; see `exec_enabledInv` and `exec_enabled_noSwitch`) -/
 theorem exec_frame (p : Prog) (s : St) :
-    (exec s p).1.enabled = s.enabled ∧ (exec s p).1.store = s.store ∧ (exec s p).1.draws = s.draws ∧
+    True ∧ (exec s p).1.store = s.store ∧ (exec s p).1.draws = s.draws ∧
     (exec s p).1.drawn = s.drawn ∧ (exec s p).1.clock = s.clock ∧ (exec s p).1.nextId = s.nextId ∧
     (exec s p).1.playback = s.playback := by
   have := exec_preserves
-    (fun t => t.enabled = s.enabled ∧ t.store = s.store ∧ t.draws = s.draws ∧ t.drawn = s.drawn ∧
+    (fun t => True ∧ t.store = s.store ∧ t.draws = s.draws ∧ t.drawn = s.drawn ∧
       t.clock = s.clock ∧ t.nextId = s.nextId ∧ t.playback = s.playback)
     (by intro t e h; simpa using h) (by intro t b h; simpa using h) (by intro t h; simpa using h)
     (by intro t h; simpa using h) (by intro t key v h; simpa using h)
     (by intro t cfg n args h _; simpa using h) (by intro cfg args k0 t o h; simpa using h)
-    (by intro a n t o h; simpa using h) p s ⟨rfl, rfl, rfl, rfl, rfl, rfl, rfl⟩
+    (by intro a n t o h; simpa using h) (by intro t b h; simpa using h) p s ⟨trivial, rfl, rfl, rfl, rfl, rfl, rfl⟩
   exact this
+
+/-- a program that never touches the switch leaves it as it was -/
+theorem exec_enabled_noSwitch (p : Prog) (hp : p.NoSwitch) (s : St) : (exec s p).1.enabled = s.enabled :=
+  exec_preserves_ns (fun t => t.enabled = s.enabled)
+    (by intro t e h; simpa using h) (by intro t b h; simpa using h) (by intro t h; simpa using h)
+    (by intro t h; simpa using h) (by intro t key v h; simpa using h)
+    (by intro t cfg n args h _; simpa using h) (by intro cfg args k0 t o h; simpa using h)
+    (by intro a n t o h; simpa using h) p hp s rfl
+
+/-- **a recording in flight implies the switch is on**: switching recording off aborts the recording (F15), so whatever the
+running code does with the switch, `in_recording_mode` is just "a recording is active" -/
+def St.EnabledInv (s : St) : Prop := s.active.isSome = true → s.enabled = true
 
 /-- the nested-interception flag is restored by every call -/
 theorem exec_inInt (p : Prog) : ∀ s : St, (exec s p).1.inInt = s.inInt := by
@@ -106,6 +175,7 @@ theorem exec_inInt (p : Prog) : ∀ s : St, (exec s p).1.inInt = s.inInt := by
   | discard k ih => intro s; rw [exec, ih]; simp
   | force k ih => intro s; rw [exec, ih]; simp
   | recordData key v k ih => intro s; rw [exec, ih]; simp
+  | setEnabled b k ih => intro s; rw [exec, ih]; simp
   | playData key k ih => intro s; rw [exec, ih]
   | callIn cfg args body k ihb ihk =>
     intro s
